@@ -1723,3 +1723,55 @@ class ArbRun(Contract):
         ("nothing-stopped-yet", lambda L: And(L.st.ghost["halt_calls"] == 0, L.st.ghost["stop_calls"] == 0, L.st.ghost["exit_calls"] == 0, L.st.ghost["cause_kind"] == 0,
                                               L.st.obj(L.st.obj(L.self).fields["pidfile"]).fields["g_unlinks"].t == 0)),
     ])}
+
+
+# ======================================================================================================
+# Arbiter.sleep: wait for a wake-up byte or one second
+# ======================================================================================================
+def _sleep_select(ex, st, self_v, args, kwargs, node):
+    st.ghost["sleep_timeout"] = args[3]
+    rl = ex.concrete_items(st, args[0])
+    empty, bad, kbd = st.fork(), st.fork(), st.fork()
+    e = z3.Int("select.errno")
+    return [ex.res(st, STuple([st.alloc(HList(list(rl))), st.alloc(HList([])), st.alloc(HList([]))])),
+            ex.res(empty, STuple([empty.alloc(HList([])), empty.alloc(HList([])), empty.alloc(HList([]))])),
+            ex.res_exc(bad, SExc(OSError, (SInt(e),), {"errno": SInt(e), "args": STuple([SInt(e)])})),
+            ex.res_exc(kbd, SExc(KeyboardInterrupt))]
+
+
+def _sleep_read(ex, st, self_v, args, kwargs, node):
+    more, bad = st.fork(), st.fork()
+    e = z3.Int("read.errno")
+    st.ghost["pipe_reads"] = st.ghost["pipe_reads"] + 1
+    more.ghost["pipe_reads"] = more.ghost["pipe_reads"] + 1
+    return [ex.res(st, SStr.lit(b"")), ex.res(more, SStr.lit(b".")),
+            ex.res_exc(bad, SExc(OSError, (SInt(e),), {"errno": SInt(e), "args": STuple([SInt(e)])}))]
+
+
+@contract("gunicorn.arbiter:Arbiter.sleep", props=("C03",))
+class ArbSleep(Contract):
+    """waits at most one second for the wake-up pipe, drains it, and lets only real errors through: EAGAIN / EINTR from
+    select or read are swallowed, any other OSError propagates, Ctrl-C ends the process"""
+
+    def cases(self, env):
+        st = State()
+        env.use_class("gunicorn.arbiter", "Arbiter")
+        a = st.alloc(HObj("Arbiter", {"PIPE": STuple([SInt(7), SInt(8)]), "log": mk_logger(env, st)}))
+        STUBS.update({"select.select": _sleep_select, "os.read": _sleep_read, "posix.read": _sleep_read})
+        st.ghost["pipe_reads"] = iv(0)
+        return [("sleep", st, {"self": a}, {})]
+
+    def raises(self, c):
+        return [(OSError, None), (SystemExit, None)]
+
+    def exc_post(self, c):
+        if c.exc.cls is OSError:
+            e = c.exc.fields.get("errno")
+            return [("only-real-errors-propagate(not-EAGAIN/EINTR)", And(e.t != _errno.EAGAIN, e.t != _errno.EINTR) if isinstance(e, SInt) else FALSE)]
+        return []
+
+    def post(self, c):
+        to = c.st.ghost.get("sleep_timeout")
+        return [("waits-at-most-one-second", (to.t == 1.0) if isinstance(to, SReal) else ((to.t == 1) if isinstance(to, SInt) else FALSE))]
+
+    loops = {0: dict(anchor="while os.read(self.PIPE[0], 1)", cands=[])}
